@@ -28,10 +28,14 @@ type c16Src struct {
 	i    int
 	buf  [4]byte // reused by the zero-copy variant
 	zero bool
+	idle bool // after the history: time out forever (an idle live capture) instead of EOF
 }
 
 func (s *c16Src) next() (data []byte, ci CaptureInfo, err error) {
 	if s.i >= len(s.evs) {
+		if s.idle {
+			return nil, ci, c16Timeout{}
+		}
 		return nil, ci, io.EOF
 	}
 	ev := s.evs[s.i]
@@ -191,4 +195,34 @@ func verif_C16_guard() {
 	}()
 	verifAssert(refused, "zero-copy data source with NoCopy decoding is refused on the channel interface")
 	verifReached("guard")
+}
+
+// an idle live source (times out forever): cancelling the context must stop
+// the background reader as soon as its current read returns
+func verif_C16_cancel_idle() {
+	verifPreemptBound(verifParam("preempt"))
+	evs := c16History(2)
+	for _, e := range evs {
+		verifAssume(e.kind != 3)
+	}
+	src := &c16Src{evs: evs, idle: true}
+	ps := NewPacketSource(src, DecodePayload)
+	ctx := &c16Ctx{done: make(chan struct{})}
+	ch := ps.PacketsCtx(ctx)
+	npk := 0
+	for _, e := range evs {
+		if e.kind == 0 {
+			npk++
+		}
+	}
+	for n := 0; n < npk; n++ {
+		_, ok := <-ch
+		verifAssert(ok, "packets of the history are delivered before cancellation")
+	}
+	ctx.cancel()
+	for range ch {
+		verifAssert(false, "no packet after the history")
+	}
+	verifJoin() // the background reader terminates
+	verifReached("cancel-idle")
 }
